@@ -1,0 +1,23 @@
+//go:build verif
+
+package client
+
+// Read-only accessors for the verification harness (build tag "verif").
+
+// VerifDefaults returns the default option values (durations in milliseconds).
+func VerifDefaults() map[string]int64 {
+	o := newDialOptions()
+	r := newRequestOptions()
+	return map[string]int64{
+		"DialTimeoutMs":      o.Timeout.Milliseconds(),
+		"AuthTimeoutMs":      o.AuthTimeout.Milliseconds(),
+		"KeepaliveMs":        o.Keepalive.Milliseconds(),
+		"KeepaliveTimeoutMs": o.KeepaliveTimeout.Milliseconds(),
+		"WriteQueueSize":     int64(o.WriteQueueSize),
+		"ReadBufferSize":     int64(o.ReadBufferSize),
+		"ReadQueueSize":      int64(o.ReadQueueSize),
+		"MinGzipSize":        int64(o.MinGzipSize),
+		"MaxReconnect":       int64(o.MaxReconnect),
+		"RequestTimeoutMs":   r.timeout.Milliseconds(),
+	}
+}
